@@ -28,7 +28,7 @@ Definition atom_src (a : gatom) : string :=
   | GNoPool => "cs.readBufPool.Get().(*[]byte)"
   | GX0NotOpened => "!ref.opened" | GR0WriteOnly => "ref.openFlags&OpenFlagsModeMask == WriteOnly"
   | GR2Empty => "t.Count == 0 && ref.pendingXattr.size != 0"
-  | GR2Range => "t.Offset+uint64(t.Count) > uint64(len(ref.pendingXattr.buf))"
+  | GR2Range => "t.Offset > size || uint64(t.Count) > size-t.Offset"
   | GRBadOp => "default" | GW0ReadOnly => "ref.openFlags&OpenFlagsModeMask == ReadOnly"
   | GW1Off => "uint64(len(ref.pendingXattr.buf)) != t.Offset"
   | GW1Big => "t.Offset+uint64(len(t.Data)) > ref.pendingXattr.size" | GWBadOp => "default"
